@@ -131,11 +131,108 @@ theorem inv_reload_onfly (L : Laws e fold) {s : St Id} (hinv : Inv e s) (hnot : 
     ∃ s', loadUHash e s (some (recs, false)) = .ok (s', .ok) ∧ Inv e s' ∧ s'.userid = s.userid ∧
       s'.number = (recs.length : Int) ∧ s'.loaded = s.loaded := by
   obtain ⟨ch, hwf, _, hcov⟩ := hinv
-  obtain ⟨s', ch', hrun, hwf', hcov', hu', _, hl'⟩ :=
-    fillLoop_onfly L recs 0 0 s ch hwf hcov (fun j r hj => by simpa using hag j r hj)
+  obtain ⟨s', ch', hrun, hwf', hcov', hu', _, hl', _⟩ :=
+    fillLoop_onfly L [] recs 0 0 s ch hwf hcov (fun j r hj => by simpa using hag j r hj)
   refine ⟨{ s' with number := (recs.length : Int) }, ?_, ⟨ch', ⟨⟨hwf'.1.hu, hwf'.1.hn, hwf'.1.hh⟩, hwf'.2⟩,
     (fun k hk => by cases hk), hcov'⟩, hu', rfl, hl'⟩
   simp only [loadUHash, hnot, if_false, fillUHash, initFill_onfly_id hwf, bind_ok, hrun, Bool.false_eq_true, pure_ok]
+
+/-- The same reload when .PASSWDS ends in an incomplete record (the complete records agree): LoadUHash reports the
+error, Number is not advanced, and the index is still a faithful map. -/
+theorem inv_reload_onfly_torn (L : Laws e fold) {s : St Id} (hinv : Inv e s) (hnot : ¬ (s.number = 0 ∧ s.loaded = 0))
+    (recs : List Id) (hag : Agree e recs s) :
+    ∃ s', loadUHash e s (some (recs, true)) = .ok (s', .errFile) ∧ Inv e s' ∧ s'.userid = s.userid ∧
+      s'.number = s.number ∧ s'.loaded = s.loaded := by
+  obtain ⟨ch, hwf, _, hcov⟩ := hinv
+  obtain ⟨s', ch', hrun, hwf', hcov', hu', hn', hl', _⟩ :=
+    fillLoop_onfly L [] recs 0 0 s ch hwf hcov (fun j r hj => by simpa using hag j r hj)
+  refine ⟨s', ?_, ⟨ch', hwf', (fun k hk => by cases hk), hcov'⟩, hu', hn', hl'⟩
+  simp only [loadUHash, hnot, if_false, fillUHash, initFill_onfly_id hwf, bind_ok, hrun, if_true, pure_ok]
+
+/-- A reload that cannot open its .PASSWDS (missing file, wrong BBSHOME) into a loaded segment changes NOTHING: the
+state afterwards is the state before, whatever slots are detached.  (The cold path, by contrast, resets every hash head
+before it opens the file: it must never be taken on a loaded segment.) -/
+theorem failed_reload_keeps_index {D : List Nat} {s : St Id} (hinv : InvD e D s)
+    (hnot : ¬ (s.number = 0 ∧ s.loaded = 0)) : loadUHash e s none = .ok (s, .errFile) := by
+  obtain ⟨ch, hwf, _, _⟩ := hinv
+  simp only [loadUHash, hnot, if_false, fillUHash, initFill_onfly_id hwf, bind_ok, pure_ok]
+
+/-- On-the-fly reload with detached slots (bare RemoveFromUHash, or a writer that died inside SetUserID between the
+unlink and the relink): every record is re-examined, so a detached slot whose id is still in the table and agrees
+with the file is linked again.  When the loader skips nothing (at most PRE invalid ids), exactly the detached slots
+beyond the end of the file stay detached. -/
+theorem inv_reload_onfly_detached (L : Laws e fold) {D : List Nat} {s : St Id} (hinv : InvD e D s)
+    (hnot : ¬ (s.number = 0 ∧ s.loaded = 0)) (recs : List Id) (hag : Agree e recs s)
+    (hpre : (recs.filter (fun r => !e.valid r)).length ≤ e.PRE) :
+    ∃ s', loadUHash e s (some (recs, false)) = .ok (s', .ok) ∧
+      InvD e (D.filter (fun k => decide (recs.length ≤ k))) s' ∧ s'.userid = s.userid ∧
+      s'.number = (recs.length : Int) ∧ s'.loaded = s.loaded := by
+  obtain ⟨ch, hwf, hfree, hcov⟩ := hinv
+  obtain ⟨s', ch', hrun, hwf', hcov', hu', _, hl', _, hbound, hlink⟩ :=
+    fillLoop_onfly L D recs 0 0 s ch hwf hcov (fun j r hj => by simpa using hag j r hj)
+  refine ⟨{ s' with number := (recs.length : Int) }, ?_, ⟨ch', ⟨⟨hwf'.1.hu, hwf'.1.hn, hwf'.1.hh⟩, hwf'.2⟩, ?_, ?_⟩,
+    hu', rfl, hl'⟩
+  · simp only [loadUHash, hnot, if_false, fillUHash, initFill_onfly_id hwf, bind_ok, hrun, Bool.false_eq_true, pure_ok]
+  · intro k hk h hh hx
+    simp only [List.mem_filter, decide_eq_true_eq] at hk
+    rcases hbound h k hx with hx | hx
+    · exact hfree k hk.1 h hh hx
+    · omega
+  · intro k id hid hne hD
+    by_cases hkD : k ∈ D
+    · have hlt : k < recs.length := by
+        simp only [List.mem_filter, decide_eq_true_eq, not_and] at hD
+        have := hD hkD
+        omega
+      obtain ⟨r, hr⟩ := getElem?_of_lt hlt
+      obtain ⟨cur, hcur, hseq⟩ := hag k r hr
+      have hid' : s.userid[k]? = some id := by rw [← hu']; exact hid
+      rw [hcur] at hid'; cases hid'
+      have := hlink (by simpa using hpre) k r hr
+      simp only [Nat.zero_add] at this
+      rw [L.hash_eq (L.seq_fold r id hseq)] at this
+      exact this
+    · exact hcov' k id hid hne hkD
+
+/-! ## a second process attaching to the live segment -/
+
+/-- NewSHM on an existing segment — as opener or AS CREATOR (what main_init does with IS_NEW_SHM on a restart or a
+second server) — writes nothing: not the header, not Number/Loaded, not the index; and it never reports `isNew`. -/
+theorem newSHM_existing_untouched (wv ws : Int) (sg : Seg Id) (isCreate : Bool) :
+    (newSHM e wv ws (some sg) isCreate).1 = some sg ∧ (newSHM e wv ws (some sg) isCreate).2.1 = false := by
+  unfold newSHM
+  by_cases h1 : sg.version = wv <;> by_cases h2 : sg.size = ws <;> simp [h1, h2]
+
+/-- …and it succeeds exactly when the header carries the expected Version and Size. -/
+theorem newSHM_existing_ok_iff (wv ws : Int) (sg : Seg Id) (isCreate : Bool) :
+    (newSHM e wv ws (some sg) isCreate).2.2 = .ok ↔ sg.version = wv ∧ sg.size = ws := by
+  unfold newSHM
+  by_cases h1 : sg.version = wv <;> by_cases h2 : sg.size = ws <;> simp [h1, h2]
+
+/-- A process that starts against a live, loaded segment (creator or opener) and whose own LoadUHash cannot open
+.PASSWDS leaves the segment exactly as it was: every id the other processes are serving still resolves. -/
+theorem restart_failed_load_keeps_segment {D : List Nat} (wv ws : Int) (sg : Seg Id) (hv : sg.version = wv)
+    (hs : sg.size = ws) (hinv : InvD e D sg.st) (hnot : ¬ (sg.st.number = 0 ∧ sg.st.loaded = 0))
+    (isCreate load : Bool) :
+    restart e wv ws (some sg) none isCreate load =
+      .ok (some sg, .ok, false, if load then some .errFile else none) := by
+  unfold restart newSHM
+  simp only [hv, hs, ne_eq, not_true_eq_false, if_false]
+  cases load
+  · simp
+  · subst hv hs
+    simp [failed_reload_keeps_index hinv hnot]
+
+/-- …and when its LoadUHash reads a file that agrees with the live table, the index stays a faithful map. -/
+theorem restart_agreeing_load_keeps_inv (L : Laws e fold) (wv ws : Int) (sg : Seg Id) (hv : sg.version = wv)
+    (hs : sg.size = ws) (hinv : Inv e sg.st) (hnot : ¬ (sg.st.number = 0 ∧ sg.st.loaded = 0))
+    (recs : List Id) (hag : Agree e recs sg.st) (isCreate : Bool) :
+    ∃ s', restart e wv ws (some sg) (some (recs, false)) isCreate true =
+        .ok (some { sg with st := s' }, .ok, false, some .ok) ∧ Inv e s' ∧ s'.userid = sg.st.userid := by
+  obtain ⟨s', hrun, hinv', hu, _⟩ := inv_reload_onfly L hinv hnot recs hag
+  refine ⟨s', ?_, hinv', hu⟩
+  unfold restart newSHM
+  simp only [hv, hs, ne_eq, not_true_eq_false, if_false, if_true, hrun, bind_ok, pure_ok]
 
 /-- The one-pass loop the model uses for InitFillUHash(true) is the literal loop of the source,
 `for idx := 0; idx < 1<<HASH_BITS; idx++ { checkHash(idx) }`, on every state (well-formed or not). -/
@@ -161,6 +258,13 @@ inductive Reach (e : Env Id) : St Id → List Nat → Prop
       addToUHash e s (k : Int) id = .ok (s', r) → Reach e s' (D.filter (· ≠ k))
   | onfly (s s' r) (recs : List Id) : Reach e s [] → ¬ (s.number = 0 ∧ s.loaded = 0) → Agree e recs s →
       loadUHash e s (some (recs, false)) = .ok (s', r) → Reach e s' []
+  | onflyTorn (s s' r) (recs : List Id) : Reach e s [] → ¬ (s.number = 0 ∧ s.loaded = 0) → Agree e recs s →
+      loadUHash e s (some (recs, true)) = .ok (s', r) → Reach e s' []
+  | onflyDetached (s D s' r) (recs : List Id) : Reach e s D → ¬ (s.number = 0 ∧ s.loaded = 0) → Agree e recs s →
+      (recs.filter (fun r => !e.valid r)).length ≤ e.PRE →
+      loadUHash e s (some (recs, false)) = .ok (s', r) → Reach e s' (D.filter (fun k => decide (recs.length ≤ k)))
+  | reloadNoFile (s D s' r) : Reach e s D → ¬ (s.number = 0 ∧ s.loaded = 0) →
+      loadUHash e s none = .ok (s', r) → Reach e s' D
 
 /-- Induction over arbitrary histories: the invariant holds in every reachable state. -/
 theorem reachable_inv (L : Laws e fold) {s : St Id} {D : List Nat} (h : Reach e s D) : InvD e D s := by
@@ -182,6 +286,14 @@ theorem reachable_inv (L : Laws e fold) {s : St Id} {D : List Nat} (h : Reach e 
   | onfly s s' r recs _ hnot hag hrun ih =>
     obtain ⟨s'', hrun', hinv, _⟩ := inv_reload_onfly L ih hnot recs hag
     rw [hrun] at hrun'; cases hrun'; exact hinv
+  | onflyTorn s s' r recs _ hnot hag hrun ih =>
+    obtain ⟨s'', hrun', hinv, _⟩ := inv_reload_onfly_torn L ih hnot recs hag
+    rw [hrun] at hrun'; cases hrun'; exact hinv
+  | onflyDetached s D s' r recs _ hnot hag hpre hrun ih =>
+    obtain ⟨s'', hrun', hinv, _⟩ := inv_reload_onfly_detached L ih hnot recs hag hpre
+    rw [hrun] at hrun'; cases hrun'; exact hinv
+  | reloadNoFile s D s' r _ hnot hrun ih =>
+    rw [failed_reload_keeps_index ih hnot] at hrun; cases hrun; exact ih
 
 /-- between calls of SetUserID and reloads (no bare remove pending) the full invariant holds -/
 theorem reachable_inv_nil (L : Laws e fold) {s : St Id} (h : Reach e s []) : Inv e s := reachable_inv L h
@@ -585,6 +697,49 @@ theorem memo_breaks_lookup_after_remove :
       searchMemo toyEnv m1 s' 22 = .ok ((2, some 22), m1) ∧
       searchUserRaw toyEnv s' 22 = .ok (0, none) ∧ doSearchUserRaw toyEnv s' 22 = .ok (0, none) :=
   ⟨some (22, 2), { toySt with next := [2, 2, -1, 7] }, by rfl, by rfl, by rfl, by rfl, by rfl⟩
+
+/-! ### witness for a broken rule: the creator writes the header whenever it asked to create
+
+`newSHMSeed` is NewSHM with the change of seeded patch C04-r4-1: `if isCreate` instead of `if isNew` around the header
+initialisation.  A second creator then zeroes Number and Loaded of the live segment, its LoadUHash takes the COLD path,
+and that path resets every hash head before it opens the file. -/
+
+def newSHMSeed {Id' : Type} (e : Env Id') (wantV wantS : Int) (seg : Option (Seg Id')) (isCreate : Bool) :
+    Option (Seg Id') × Bool × AttachRet :=
+  match seg, isCreate with
+  | some sg, true => (some { version := wantV, size := wantS, st := { sg.st with number := 0, loaded := 0 } }, false, .ok)
+  | _, _ => newSHM e wantV wantS seg isCreate
+
+/-- a second creator whose .PASSWDS is missing: with the real NewSHM the live segment is untouched; with the seeded one
+every id of the table (still in Userid) has become unreachable -/
+theorem creator_header_reset_wipes_index :
+    restart toyEnv 7 9 (some ⟨7, 9, toySt⟩) none true true = .ok (some ⟨7, 9, toySt⟩, .ok, false, some .errFile) ∧
+    ∃ sg', (newSHMSeed toyEnv 7 9 (some ⟨7, 9, toySt⟩) true).1 = some sg' ∧
+      ∃ s', loadUHash toyEnv sg'.st none = .ok (s', .errFile) ∧ s'.userid = [11, 22, 33, 0] ∧ s'.head = [-1] ∧
+        searchUserRaw toyEnv s' 11 = .ok (0, none) ∧ searchUserRaw toyEnv s' 22 = .ok (0, none) ∧
+        searchUserRaw toyEnv s' 33 = .ok (0, none) ∧ searchUserRaw toyEnv toySt 22 = .ok (2, some 22) :=
+  ⟨by rfl, _, rfl, _, by rfl, rfl, rfl, by rfl, by rfl, by rfl, by rfl⟩
+
+/-- the hypotheses of `inv_reload_onfly_detached` are satisfiable: slot 1 detached, then linked again by the reload -/
+example : ∃ s1 s2, removeFromUHash toyEnv toySt 1 = .ok (s1, .ok) ∧
+    loadUHash toyEnv s1 (some ([11, 22, 33], false)) = .ok (s2, .ok) ∧ Inv toyEnv s2 ∧
+    searchUserRaw toyEnv s1 22 = .ok (0, none) ∧ searchUserRaw toyEnv s2 22 = .ok (2, some 22) := by
+  obtain ⟨s1, h1, hinv1, hu1, hn1, hl1⟩ := inv_remove toy_laws toy_inv (k := 1) (by decide)
+  have e1 : removeFromUHash toyEnv toySt ((1 : Nat) : Int) = .ok ({ toySt with next := [2, 2, -1, 7] }, .ok) := by rfl
+  rw [e1] at h1; cases h1
+  have hag : Agree toyEnv [11, 22, 33] { toySt with next := [2, 2, -1, 7] } := by
+    intro j r hj
+    match j, hj with
+    | 0, hj => simp at hj; subst hj; exact ⟨11, rfl, rfl⟩
+    | 1, hj => simp at hj; subst hj; exact ⟨22, rfl, rfl⟩
+    | 2, hj => simp at hj; subst hj; exact ⟨33, rfl, rfl⟩
+    | j + 3, hj => simp at hj
+  obtain ⟨s2, h2, hinv2, _⟩ := inv_reload_onfly_detached toy_laws hinv1 (by decide) [11, 22, 33] hag (by decide)
+  refine ⟨_, s2, e1, h2, hinv2, by rfl, ?_⟩
+  have e2 : loadUHash toyEnv { toySt with next := [2, 2, -1, 7] } (some ([11, 22, 33], false)) =
+      .ok ({ userid := [11, 22, 33, 0], head := [0], next := [2, -1, 1, 7], number := 3, loaded := 1 }, .ok) := by rfl
+  rw [e2] at h2; cases h2
+  rfl
 
 /-- `Reach` is inhabited beyond the cold load: cold load of three colliding records, a rename, a bare remove -/
 example : ∃ s, Reach toyEnv s [0] ∧ s.userid = [11, 55, 33, 0] := by
